@@ -313,15 +313,20 @@ theorem no_sort_is_natural (docs : List Val) :
 
 /-! ## `$sort` / `$skip` / `$limit` -/
 
-/-- A pipeline of `$sort`, `$skip`, `$limit` stages with in-domain keys and non-negative
-    arguments computes the same stable sorts and contiguous slices. -/
+/-- A pipeline of `$sort`, `$skip`, `$limit` stages with in-domain keys computes the same stable
+    sorts and contiguous slices — and is rejected (OperationFailure) exactly when the rules reject
+    it: a negative `$skip`, a `$limit` that is not positive (`runStages` answers `none`). -/
 theorem pipeline_eq_spec (stages : List Stage) (docs : List Val)
     (h : pipelineReasons stages docs = []) :
-    runPipeline stages docs = .ok (runStages stages docs) :=
+    runPipeline stages docs = stagesVerdict (runStages stages docs) :=
   runPipeline_eq_spec stages docs docs
     (fun st hst => List.flatMap_eq_nil_iff.mp h st hst) (fun _ hd => hd)
 
-example : pipelineReasons [.sort [("b", -1), ("a", 1)], .skip 1, .limit 3] sample = [] := by
+example : pipelineReasons [.sort [("b", -1), ("a", 1)], .skip 1, .limit 3] sample = [] ∧
+    (runStages [.sort [("b", -1), ("a", 1)], .skip 1, .limit 3] sample).isSome = true ∧
+    pipelineReasons [.sort [("b", -1)], .limit 0] sample = [] ∧
+    (runStages [.sort [("b", -1)], .limit 0] sample).isNone = true ∧
+    (runStages [.skip (-1)] sample).isNone = true := by
   decide +kernel
 
 /-- `$sort` and `find(sort=…)` are the same function of the documents inside the domain -/
